@@ -530,3 +530,175 @@ Proof. destruct m as [[r1 r2] r3]. destruct r1 as [[? ?] ?], r2 as [[? ?] ?], r3
   unfold mvec, mQ2R, vQ2R, dot. q2r. Qed.
 Lemma rotate_points_Q_R m pts : map vQ2R (rotate_points QO m pts) = rotate_points RO (mQ2R m) (map vQ2R pts).
 Proof. unfold rotate_points. rewrite !map_map. apply map_ext. intros v. apply mvec_Q_R. Qed.
+
+(** * 8. statements used by Props.v that combine the above *)
+Lemma rotation_matrix_orthogonal_r a b g rad :
+  mmul RO (rotation_matrix a b g rad) (mcol (rotation_matrix a b g rad)) = mid RO.
+Proof. unfold rotation_matrix. apply rotM_orth_r; apply cs1. Qed.
+
+Lemma rotation_matrix_det a b g rad : det RO (rotation_matrix a b g rad) = 1.
+Proof. unfold rotation_matrix. apply rotM_det; apply cs1. Qed.
+
+Lemma rotation_matrix_zyz a b g rad :
+  let k := fun x => to_radians RO rad (PI / 180) x in
+  rotation_matrix a b g rad =
+  mmul RO (Rz RO (cos (k g)) (sin (k g))) (mmul RO (Ry RO (cos (k b)) (sin (k b))) (Rz RO (cos (k a)) (sin (k a)))).
+Proof. intros k. unfold rotation_matrix. apply rotM_zyz. Qed.
+
+Lemma rotate_points_length (m : matr) pts : length (rotate_points RO m pts) = length pts.
+Proof. apply map_length. Qed.
+
+Lemma rotate_points_nth (m : matr) pts i d : (i < length pts)%nat ->
+  List.nth i (rotate_points RO m pts) d = mvec RO m (List.nth i pts d).
+Proof. intros H. unfold rotate_points. rewrite (@nth_indep _ (map (mvec RO m) pts) i d (mvec RO m d))
+    by (rewrite map_length; exact H). apply map_nth. Qed.
+
+Lemma rotate_points_isometry (m : matr) pts i j d : orthogonal m ->
+  (i < length pts)%nat -> (j < length pts)%nat ->
+  dist2 RO (List.nth i (rotate_points RO m pts) d) (List.nth j (rotate_points RO m pts) d)
+  = dist2 RO (List.nth i pts d) (List.nth j pts d).
+Proof. intros Ho Hi Hj. unfold rotate_points. apply map_pairwise; [|exact Hi|exact Hj].
+  intros p q. apply orth_isometry, Ho. Qed.
+
+Lemma rotate_points_norm (m : matr) pts i d : orthogonal m -> (i < length pts)%nat ->
+  dot RO (List.nth i (rotate_points RO m pts) d) (List.nth i (rotate_points RO m pts) d)
+  = dot RO (List.nth i pts d) (List.nth i pts d).
+Proof. intros Ho Hi. rewrite rotate_points_nth by exact Hi. apply orth_norm, Ho. Qed.
+
+(** composites: pairwise distances between members, by index *)
+Lemma rotated_flat_pairwise (m : matr) cs i j d : orthogonal m ->
+  (i < length cs)%nat -> (j < length cs)%nat ->
+  dist2 RO (List.nth i (rotated_flat RO m cs) d) (List.nth j (rotated_flat RO m cs) d)
+  = dist2 RO (List.nth i cs d) (List.nth j cs d).
+Proof. intros Ho Hi Hj. rewrite rotated_flat_about. apply map_pairwise; [|exact Hi|exact Hj].
+  intros p q. apply about_isometry, Ho. Qed.
+
+Lemma translated_flat_pairwise t cs i j d : (i < length cs)%nat -> (j < length cs)%nat ->
+  dist2 RO (List.nth i (translated_flat RO t cs) d) (List.nth j (translated_flat RO t cs) d)
+  = dist2 RO (List.nth i cs d) (List.nth j cs d).
+Proof. intros Hi Hj. unfold translated_flat. apply map_pairwise; [|exact Hi|exact Hj].
+  intros p q. apply translate_isometry. Qed.
+
+Lemma rigid_cluster_pairwise (m : matr) t cs i j d : orthogonal m -> cs <> [] ->
+  (i < length cs)%nat -> (j < length cs)%nat ->
+  dist2 RO (List.nth i (rigid_cluster RO m t cs) d) (List.nth j (rigid_cluster RO m t cs) d)
+  = dist2 RO (List.nth i cs d) (List.nth j cs d).
+Proof. intros Ho Hne Hi Hj. destruct (rigid_cluster_rigid m t cs Ho Hne) as [E [Hiso _]].
+  rewrite E. apply map_pairwise; [exact Hiso|exact Hi|exact Hj]. Qed.
+
+(** a composite with exactly one member: rotation leaves it where it is *)
+Lemma vmean_single (c : vecr) : vmean RO (c :: nil) = c.
+Proof. dv c. unfold vmean, vsum, vdivs, vadd, vzero; simpl; ro. tup ltac:(field). Qed.
+Lemma rotated_flat_single (m : matr) (c : vecr) : rotated_flat RO m (c :: nil) = c :: nil.
+Proof. rewrite rotated_flat_about. simpl. rewrite vmean_single, about_fixes_com. reflexivity. Qed.
+
+(** rotating by the identity matrix (all three angles 0) moves nothing *)
+Lemma rotation_matrix_zero rad : rotation_matrix 0 0 0 rad = mid RO.
+Proof. unfold rotation_matrix, to_radians, rotM, mid; ro. destruct rad;
+  rewrite ?Rmult_0_l, cos_0, sin_0; tup ltac:(ring). Qed.
+
+(** orthogonal in the two-sided sense *)
+Lemma orthogonal_rotM ca sa cb sb cg sg :
+  ca*ca + sa*sa = 1 -> cb*cb + sb*sb = 1 -> cg*cg + sg*sg = 1 -> orthogonal (rotM RO ca sa cb sb cg sg).
+Proof. intros. unfold orthogonal. apply rotM_orth_l; assumption. Qed.
+
+
+(** * 9. nested composites (a Scatterers holding Spheres ...): every leaf sphere undergoes the
+    same map  p |-> com + M (p - com)  about the centre of the top-level composite *)
+Notation scatr := (scat R).
+Fixpoint wf (s : scatr) : Prop :=
+  match s with Leaf _ => True | Node l => l <> nil /\ fold_right and True (map wf l) end.
+
+Fixpoint scat_ind' (P : scatr -> Prop) (HL : forall c, P (Leaf c))
+  (HN : forall l, Forall P l -> P (Node l)) (s : scatr) : P s :=
+  match s with
+  | Leaf c => HL c
+  | Node l => HN l ((fix go (l : list scatr) : Forall P l :=
+       match l with nil => Forall_nil P | x :: t => Forall_cons x (scat_ind' P HL HN x) (go t) end) l)
+  end.
+
+Lemma wf_Forall l : fold_right and True (map wf l) <-> Forall wf l.
+Proof. induction l as [|x t IH]; simpl; split; intros H.
+  - constructor. - exact I.
+  - destruct H as [H1 H2]. constructor; [exact H1|apply IH, H2].
+  - inversion H; subst. split; [assumption|apply IH; assumption]. Qed.
+
+Lemma map_ext_Forall {A B} (f g : A -> B) (P : A -> Prop) l :
+  Forall P l -> (forall x, P x -> f x = g x) -> map f l = map g l.
+Proof. intros H E. induction H as [|x t Hx Ht IH]; simpl; [reflexivity|]. rewrite (E x Hx), IH. reflexivity. Qed.
+
+Lemma Forall_and {A} (P Q : A -> Prop) l : Forall P l -> Forall Q l -> Forall (fun x => P x /\ Q x) l.
+Proof. intros HP. induction HP; intros HQ; inversion HQ; subst; constructor; auto. Qed.
+
+Lemma translate_props t (s : scatr) : wf s ->
+  center RO (translate RO t s) = vadd RO (center RO s) t /\
+  leaves (translate RO t s) = map (fun p => vadd RO p t) (leaves s) /\
+  depth (translate RO t s) = depth s /\ wf (translate RO t s).
+Proof. induction s as [c|l IH] using scat_ind'; intros Hw.
+  - simpl. repeat split; reflexivity.
+  - simpl in Hw. destruct Hw as [Hne Hw]. apply wf_Forall in Hw.
+    pose proof (Forall_and _ _ _ IH Hw) as H.
+    assert (H' : Forall (fun x => center RO (translate RO t x) = vadd RO (center RO x) t /\
+       leaves (translate RO t x) = map (fun p => vadd RO p t) (leaves x) /\
+       depth (translate RO t x) = depth x /\ wf (translate RO t x)) l).
+    { clear -H. induction H as [|x r [Hi Hx] Hr IHr]; constructor; [apply Hi, Hx|exact IHr]. }
+    clear H IH. cbn [translate center leaves depth wf]. rewrite !map_map. repeat split.
+    + rewrite (map_ext_Forall _ (fun x => vadd RO (center RO x) t) _ l H') by (intros x Hx; apply Hx).
+      rewrite <- (map_map (center RO) (fun c => vadd RO c t)). fold (translated_flat RO t (map (center RO) l)).
+      apply vmean_translated. destruct l; [congruence|simpl; congruence].
+    + clear Hne Hw. induction H' as [|x r Hx Hr IHr]; simpl; [reflexivity|].
+      rewrite map_app, <- IHr. destruct Hx as [_ [-> _]]. reflexivity.
+    + f_equal. f_equal. apply (map_ext_Forall _ _ _ l H'). intros x Hx. apply Hx.
+    + destruct l; [congruence|simpl; congruence].
+    + clear Hne Hw. induction H' as [|x r Hx Hr IHr]; simpl; [exact I|split; [apply Hx|exact IHr]]. Qed.
+
+Lemma about_shift (m : matr) com c p :
+  about m (about m com c) (vadd RO p (vsub RO (about m com c) c)) = about m com p.
+Proof. unfold about. destruct m as [[r1 r2] r3]. dv r1. dv r2. dv r3. dv com. dv c. dv p.
+  unfold vadd, vsub, mvec, dot; ro. tup ltac:(ring). Qed.
+
+Lemma depth_member (l : list scatr) x : In x l -> (depth x <= fold_right Nat.max 0%nat (map depth l))%nat.
+Proof. induction l as [|y t IH]; simpl; [tauto|]. intros [->|H]; [lia|]. specialize (IH H). lia. Qed.
+
+Lemma flat_map_map {A B C} (f : A -> B) (g : B -> list C) l : flat_map g (map f l) = flat_map (fun x => g (f x)) l.
+Proof. induction l; simpl; [reflexivity|]. rewrite IHl. reflexivity. Qed.
+Lemma map_flat_map {A B C} (f : B -> C) (g : A -> list B) l : map f (flat_map g l) = flat_map (fun x => map f (g x)) l.
+Proof. induction l; simpl; [reflexivity|]. rewrite map_app, IHl. reflexivity. Qed.
+Lemma flat_map_ext_in {A B} (f g : A -> list B) l : (forall x, In x l -> f x = g x) -> flat_map f l = flat_map g l.
+Proof. induction l as [|x t IH]; simpl; intros H; [reflexivity|]. rewrite (H x) by tauto. rewrite IH; [reflexivity|].
+  intros y Hy. apply H. tauto. Qed.
+
+Lemma rotated_fuel_props (m : matr) : forall f (s : scatr), wf s -> (depth s < f)%nat ->
+  leaves (rotated_fuel RO f m s) = map (about m (center RO s)) (leaves s) /\
+  center RO (rotated_fuel RO f m s) = center RO s.
+Proof. induction f as [|f IH]; intros s Hw Hd; [lia|]. destruct s as [c|l].
+  - simpl. rewrite about_fixes_com. split; reflexivity.
+  - simpl in Hw. destruct Hw as [Hne Hw]. apply wf_Forall in Hw. rewrite Forall_forall in Hw.
+    cbn [rotated_fuel]. set (com := vmean RO (map (center RO) l)).
+    assert (Hx : forall x, In x l ->
+       leaves (rotated_fuel RO f m (translate RO (vsub RO (vadd RO com (mvec RO m (vsub RO (center RO x) com))) (center RO x)) x))
+       = map (about m com) (leaves x) /\
+       center RO (rotated_fuel RO f m (translate RO (vsub RO (vadd RO com (mvec RO m (vsub RO (center RO x) com))) (center RO x)) x))
+       = about m com (center RO x)).
+    { intros x Hin. set (t := vsub RO _ (center RO x)).
+      destruct (translate_props t x (Hw x Hin)) as [Hc [Hl [Hdp Hwf]]].
+      assert (Hdx : (depth (translate RO t x) < f)%nat).
+      { rewrite Hdp. pose proof (depth_member l x Hin). simpl in Hd. lia. }
+      destruct (IH _ Hwf Hdx) as [E1 E2]. rewrite E1, E2, Hc, Hl. unfold t. fold (about m com (center RO x)).
+      rewrite vadd_sub_cancel. split; [|reflexivity]. rewrite map_map. apply map_ext. intros p. apply about_shift. }
+    cbn [leaves center]. split.
+    + rewrite flat_map_map, map_flat_map. apply flat_map_ext_in. intros x Hin. apply Hx, Hin.
+    + rewrite map_map. fold com.
+      rewrite (map_ext_in _ (fun x => about m com (center RO x)) l) by (intros x Hin; apply Hx, Hin).
+      rewrite <- (map_map (center RO) (about m com)). unfold com. apply vmean_about.
+      destruct l; [congruence|simpl; congruence]. Qed.
+
+Lemma rotated_tree_rigid (m : matr) (s : scatr) : wf s ->
+  leaves (rotated RO m s) = map (about m (center RO s)) (leaves s) /\
+  center RO (rotated RO m s) = center RO s.
+Proof. intros Hw. unfold rotated. apply rotated_fuel_props; [exact Hw|lia]. Qed.
+
+Lemma translated_tree_rigid t (s : scatr) : wf s ->
+  leaves (translate RO t s) = map (fun p => vadd RO p t) (leaves s) /\
+  center RO (translate RO t s) = vadd RO (center RO s) t.
+Proof. intros Hw. destruct (translate_props t s Hw) as [H1 [H2 _]]. split; assumption. Qed.
